@@ -61,6 +61,7 @@ type Exec struct {
 	prefixModel   map[string]uint64
 	steps         int
 	budget        int
+	maxDepth      int
 	depth         int
 	stack         []*frame
 	deferOwner    []*frame
@@ -721,6 +722,7 @@ func (ex *Exec) runPath(h *HarnessRun, item WorkItem) (res PathResult) {
 	ex.resetPath(item)
 	ex.hrun = h
 	ex.budget = h.Budget
+	ex.maxDepth = ex.eng.maxDepth + h.Budget/10000
 	defer func() {
 		r := recover()
 		res.Steps = ex.steps
